@@ -353,6 +353,11 @@ impl NodeState {
             );
             return;
         };
+        if versioned_value.is_deleted() {
+            // The key is already deleted: scheduling it for deletion must not make its
+            // tombstone (and its empty value) visible again.
+            return;
+        }
         self.max_version += 1;
         versioned_value.version = self.max_version;
         versioned_value.status = DeletionStatusMutation::DeleteAfterTtl.into_status(Instant::now());
